@@ -17,12 +17,12 @@ inline Hook &hook() { static Hook h; return h; }
 #define rChangeCb if (ga::hook().fn) ga::hook().fn(data.loc)
 
 struct Sub {
-  int si = 0; float sf = 0; bool st = false; int so = 0; char ss[16] = {0}; int sa[8] = {0, 0, 0, 0, 0, 0, 0, 0}; bool on = true; int sj = 0;
+  int si = 0; float sf = 0; bool st = false; int so = 0; char ss[16] = {0}; int sa[12] = {0}; bool on = true; int sj = 0;
   static pt::PortsProxy ports;
 };
 inline pt::PortsProxy Sub::ports;
 struct Root {
-  int preset = 0; int ri = 0, rj = 0; float rf = 0; bool rt = false; int ro = 0; char rc = 0; char rs[16] = {0}; int ra[8] = {0, 0, 0, 0, 0, 0, 0, 0}; float rfa[4] = {0, 0, 0, 0}; bool en = true; bool vp[3] = {false, false, false};
+  int preset = 0; int ri = 0, rj = 0; float rf = 0; bool rt = false; int ro = 0; char rc = 0; char rs[16] = {0}; int ra[12] = {0}; float rfa[4] = {0, 0, 0, 0}; bool en = true; bool vp[3] = {false, false, false};
   Sub sub; Sub *psub = nullptr; Sub subs[3];
 };
 
@@ -49,7 +49,7 @@ inline const char *name_of(int f) {
 inline const char *spec_of(int f) {
   switch (kind_of(f)) {
     case K_INT: return "::i"; case K_FLOAT: return "::f"; case K_BOOL: return "::T:F"; case K_OPT: return "::i:c:S"; case K_CHAR: return "::c";
-    case K_STR: return "::s"; case K_AINT: return "#8::i"; case K_ABOOL: return "#3/on::T:F"; default: return "#4::f";
+    case K_STR: return "::s"; case K_AINT: return "#12::i"; case K_ABOOL: return "#3/on::T:F"; default: return "#4::f";
   }
 }
 
@@ -226,7 +226,7 @@ inline Val get_root(const Root &r, int f) {
   Val v;
   switch (f) {
     case PRESET: v.i = r.preset; break; case RI: v.i = r.ri; break; case RJ: v.i = r.rj; break; case RF: v.f = r.rf; break; case RT: v.i = r.rt; break; case RO: v.i = r.ro; break;
-    case RC: v.i = r.rc; break; case RS: v.s = r.rs; break; case RA: v.ai.assign(r.ra, r.ra + 8); break; case RFA: v.af.assign(r.rfa, r.rfa + 4); break; case EN: v.i = r.en; break; case VP: for (int k = 0; k < 3; k++) v.ai.push_back(r.vp[k]); break;
+    case RC: v.i = r.rc; break; case RS: v.s = r.rs; break; case RA: v.ai.assign(r.ra, r.ra + 12); break; case RFA: v.af.assign(r.rfa, r.rfa + 4); break; case EN: v.i = r.en; break; case VP: for (int k = 0; k < 3; k++) v.ai.push_back(r.vp[k]); break;
   }
   return v;
 }
@@ -234,14 +234,14 @@ inline void set_root(Root &r, int f, const Val &v) {
   switch (f) {
     case PRESET: r.preset = (int)v.i; break; case RI: r.ri = (int)v.i; break; case RJ: r.rj = (int)v.i; break; case RF: r.rf = (float)v.f; break; case RT: r.rt = v.i != 0; break; case RO: r.ro = (int)v.i; break;
     case RC: r.rc = (char)v.i; break; case RS: memset(r.rs, 0, 16); memcpy(r.rs, v.s.data(), std::min<size_t>(15, v.s.size())); break;
-    case RA: for (size_t k = 0; k < 8; k++) r.ra[k] = k < v.ai.size() ? (int)v.ai[k] : 0; break; case RFA: for (int k = 0; k < 4; k++) r.rfa[k] = (float)v.af[(size_t)k]; break; case EN: r.en = v.i != 0; break; case VP: for (size_t k = 0; k < 3 && k < v.ai.size(); k++) r.vp[k] = v.ai[k] != 0; break;
+    case RA: for (size_t k = 0; k < 12; k++) r.ra[k] = k < v.ai.size() ? (int)v.ai[k] : 0; break; case RFA: for (int k = 0; k < 4; k++) r.rfa[k] = (float)v.af[(size_t)k]; break; case EN: r.en = v.i != 0; break; case VP: for (size_t k = 0; k < 3 && k < v.ai.size(); k++) r.vp[k] = v.ai[k] != 0; break;
   }
 }
 inline Val get_sub(const Sub &s, int f) {
   Val v;
   switch (f) {
     case SI: v.i = s.si; break; case SJ: v.i = s.sj; break; case SF: v.f = s.sf; break; case ST: v.i = s.st; break; case SO: v.i = s.so; break; case SS: v.s = s.ss; break;
-    case SA: v.ai.assign(s.sa, s.sa + 8); break; default: v.i = s.on; break;
+    case SA: v.ai.assign(s.sa, s.sa + 12); break; default: v.i = s.on; break;
   }
   return v;
 }
@@ -249,7 +249,7 @@ inline void set_sub(Sub &s, int f, const Val &v) {
   switch (f) {
     case SI: s.si = (int)v.i; break; case SJ: s.sj = (int)v.i; break; case SF: s.sf = (float)v.f; break; case ST: s.st = v.i != 0; break; case SO: s.so = (int)v.i; break;
     case SS: memset(s.ss, 0, 16); memcpy(s.ss, v.s.data(), std::min<size_t>(15, v.s.size())); break;
-    case SA: for (size_t k = 0; k < 8; k++) s.sa[k] = k < v.ai.size() ? (int)v.ai[k] : 0; break; default: s.on = v.i != 0; break;
+    case SA: for (size_t k = 0; k < 12; k++) s.sa[k] = k < v.ai.size() ? (int)v.ai[k] : 0; break; default: s.on = v.i != 0; break;
   }
 }
 
@@ -269,11 +269,11 @@ struct App {
   }
   static std::string en_by(const char *who) { return std::string(":enabled by") + std::string(1, '\0') + "=" + who + std::string(1, '\0'); }
   explicit App(const AppSpec &s) : spec(s) {
-    // case files written when the int arrays had 4 elements: extend their defaults to 8 by repeating the last one
+    // case files written when the int arrays had 4 or 8 elements: extend their defaults to 12 by repeating the last one
     for (auto *v : {&spec.root, &spec.sub})
       for (auto &p : *v)
         if (kind_of(p.field) == K_AINT)
-          for (auto &d : p.dflt) while (!d.ai.empty() && d.ai.size() < 8) d.ai.push_back(d.ai.back());
+          for (auto &d : p.dflt) while (!d.ai.empty() && d.ai.size() < 12) d.ai.push_back(d.ai.back());
     names.reserve(64);
     std::vector<rtosc::Port> sv, rv;
     for (auto &p : spec.sub) { names.push_back(std::string(name_of(p.field)) + spec_of(p.field)); sv.push_back(rtosc::Port{names.back().c_str(), add_block(meta_of(p)), nullptr, field_cb(p.field)}); }
@@ -346,15 +346,20 @@ inline Val gen_val(int f, const PSpec &p) {
       break;
     }
     case K_AINT: {
-      // 8 elements: long constant runs and arithmetic progressions are frequent (they are saved as compressed ranges)
+      // 12 elements: long constant runs and arithmetic progressions are frequent (they are saved as compressed ranges),
+      // also two runs next to each other
       int lo = p.has_range ? p.mn : -100, hi = p.has_range ? p.mx : 100;
-      int base = vf::pick<int>(lo, hi), style = vf::pickn(4);
-      for (int k = 0; k < 8; k++) {
+      int base = vf::pick<int>(lo, hi), style = vf::pickn(6);
+      int cut = vf::pick<int>(5, 7), base2 = vf::pick<int>(lo, hi), st1 = vf::oneof<int>({0, 0, 1, -1, 2}), st2 = vf::oneof<int>({1, 1, -1, -1, 0, 3});
+      for (int k = 0; k < 12; k++) {
         int x;
         if (style == 0) x = base;
         else if (style == 1) x = vf::chance(80) ? base : vf::pick<int>(lo, hi);
-        else if (style == 2) { x = base + k; if (x > hi) x = hi; }
+        else if (style == 2) x = base + k;
+        else if (style >= 4) x = k < cut ? base + st1 * k : base2 + st2 * (k - cut);
         else x = vf::pick<int>(lo, hi);
+        if (x > hi) x = hi;
+        if (x < lo) x = lo;
         v.ai.push_back(x);
       }
       break;
@@ -415,7 +420,7 @@ inline AppSpec gen_spec() {
 }
 
 // index for array-valued fields (-1 for scalars)
-inline int gen_idx(int field) { switch (kind_of(field)) { case K_AINT: return vf::pickn(8); case K_AFLOAT: return vf::pickn(4); case K_ABOOL: return vf::pickn(3); default: return -1; } }
+inline int gen_idx(int field) { switch (kind_of(field)) { case K_AINT: return vf::pickn(12); case K_AFLOAT: return vf::pickn(4); case K_ABOOL: return vf::pickn(3); default: return -1; } }
 // ---- one parameter message
 struct Set {
   int target = 0;   // 0 root, 1 sub, 2 psub, 3.. subs[target-3]
